@@ -1,4 +1,4 @@
-"""Stand-alone repro (C15 candidate finding): two unnamed variables whose value nodes carry their own
+"""Stand-alone repro (C15 finding F10, repaired in /repo by 66a7abc - exits 0 since then): two unnamed variables whose value nodes carry their own
 (unique) names cannot be built into one model.
 
 Var.__init__ names the VarValue proxy f"{name}_var_value" = "_var_value" for an unnamed variable.
